@@ -12,6 +12,27 @@ PROP = "C15"
 CFG = "INIT Init\nNEXT Next\nINVARIANT Holds\nCHECK_DEADLOCK FALSE\n"
 
 
+# block names that a serialiser can get wrong: words YAML 1.1 reads as booleans / null / numbers, and characters that need quoting
+WORDS = ["yes", "no", "on", "off", "true", "false", "null", "y", "n", "Yes", "NO", "True", "False", "None", "Null", "TRUE", "nan", "inf", "e1", "_1",
+         "1e3", "0x1f", "0o17", "1_000", "1.5", "007", "0b11", "1e-3", "+1", "-1", ".5", "~", "a.b", "a-b", "a b", "it's", 'say "x"', "a:b", "a: b", "#c",
+         "[x]", "{y}", "a, b", "- z", "&a", "*a", "!t", "%p", "@q", "`r", "a\\b", "\u00e9", "1:2", "2001-01-01", "=", "<<", "?", "", " ", "x\ty", "'", '"']
+
+
+def word_inputs(seed: int, count: int):
+    """Closed CFGs (loops, branches, several exits) whose block names are drawn from WORDS."""
+    import random
+
+    from .. import domains
+
+    rng = random.Random(seed * 7577 + 13)
+    pool = [g for g in domains.closed_cfgs(4)] + rb.closed5_canon()
+    out = []
+    for g in rng.sample(pool, min(count, len(pool))):
+        names = rng.sample(WORDS, len(g))
+        out.append({"dom": "N", "named": {names[i]: [names[t] for t in g[i]] for i in range(len(g))}, "words": True})
+    return out
+
+
 def main(argv):
     args = parse_args(PROP, argv)
     rep = Report(PROP, args.tier, args.seed, "model_checking")
@@ -24,6 +45,7 @@ def main(argv):
         inputs = rb.domain_inputs(args.tier, args.seed, "XRB", scale=0.3 if quick else 0.5)
         # graphs from the source front end: the library has no serialised form for PythonASTBlock (known finding)
         inputs += rb.domain_inputs(args.tier, args.seed, "S", scale=0.2 if quick else 0.1)
+        inputs += word_inputs(args.seed, 150 if quick else 1500)
     d = rb.workdir(PROP)
     try:
         res = rb.record_domain(inputs, d, jobs=args.jobs, shards=args.jobs, stages=True, hook="harness.hooks:roundtrip",
@@ -61,7 +83,7 @@ def main(argv):
         "states": states, "transitions": gen, "traces_validated_against_impl": ncases, "evaluations": ncases,
         "distinct_nontrivial": len({json.dumps(s["id"], sort_keys=True) for s in nt}),
         "rule": "write-read-write-read chains through to_dict/from_dict and to_yaml/from_yaml after every stage (input, closed, loops, branches) of every "
-                "behaviour over closed CFGs (plain blocks) and std-lib bytecode CFGs; non-trivial = the graph written contains regions and synthetic blocks",
+                "behaviour over closed CFGs (plain blocks), std-lib bytecode CFGs and closed CFGs whose block names are YAML-sensitive words or need quoting (%d names);" % len(WORDS) + " non-trivial = the graph written contains regions and synthetic blocks",
         "exhaustive": False, "samples": [s["id"] for s in nt[:3]],
     })
     return rep.finish()
